@@ -104,3 +104,8 @@ impl<'a> PatternGenerator<'a> {
         self.random.next_int_range(lower, upper) as u8
     }
 }
+
+// Verification hook (compiled only by `cargo kani`, which sets `--cfg kani`).
+#[cfg(kani)]
+#[path = "/verif/harness/mania_patgen.rs"]
+pub(crate) mod verif_harness;
